@@ -196,8 +196,9 @@ def run(case):
             params += ["--param", "phase=false"]
         if rng.random() < 0.2:
             params += ["--param", "display_format=true"]
-        if rng.random() < 0.2:
-            params += ["--param", "min_avg_coverage=5"]
+        if rng.random() < 0.25:
+            # also minimum depths above the sample's own (about 40x): both runs must then refuse the gene
+            params += ["--param", f"min_avg_coverage={rng.choice([5, 5, 60, 100])}"]
         if rng.random() < 0.15:
             params += ["--cn", ",".join(sorted(__import__("collections").Counter(
                 g.alleles[c[0]].cn_config for c in copies if c[0] != g.deletion_allele()).elements()))]
